@@ -270,6 +270,7 @@ class NumArr:
                 return NumArr([sum(r.data) for r in self.data])
             return NumArr([sum(r.data[j] for r in self.data) for j in range(len(self.data[0]))])
         return sum(self.data)
+    def mean(self, axis=None, **k): return _mean(self, axis)
     def min(self): return min(self.ravel().data)
     def max(self): return max(self.ravel().data)
     def argmin(self): return self.data.index(min(self.data))
@@ -280,6 +281,42 @@ class NumArr:
             t = t + x
             out.append(t)
         return NumArr(out)
+
+
+class Stack3:
+    """a stack of equally shaped 2-d arrays along one axis (np.dstack -> axis 2, np.stack(axis=k), np.array(list) -> axis 0);
+    only reductions along the stacking axis are modelled"""
+    _abs_native = True
+
+    def __init__(self, members, axis):
+        self.members = [m if isinstance(m, NumArr) else NumArr(m) for m in members]
+        self.axis = axis
+        if not self.members:
+            raise ValueError("need at least one array to stack")
+        sh = self.members[0].shape
+        if any(m.shape != sh for m in self.members):
+            raise ValueError("all input arrays must have the same shape")
+
+    @property
+    def shape(self):
+        sh = list(self.members[0].shape)
+        sh.insert(self.axis if self.axis >= 0 else len(sh) + 1 + self.axis, len(self.members))
+        return tuple(sh)
+
+    def _reduce(self, axis, fn):
+        nd = len(self.members[0].shape) + 1
+        if axis is None or axis % nd != self.axis % nd:
+            raise Undecided("reduction of a stacked array along axis %r (stacked along %r)" % (axis, self.axis))
+        out = self.members[0]
+        for m in self.members[1:]:
+            out = out + m
+        return fn(out, len(self.members))
+
+    def mean(self, axis=None, **k):
+        return self._reduce(axis, lambda tot, n: tot / n)
+
+    def sum(self, axis=None, **k):
+        return self._reduce(axis, lambda tot, n: tot)
 
 
 def dot(a, b):
@@ -356,8 +393,20 @@ def histogram(a, bins=10, range=None, density=None, weights=None, **k):
     return (NumArr(out), NumArr(edges))
 
 
+def _mean(a, axis=None):
+    a = a if isinstance(a, NumArr) else NumArr(a)
+    if a.ndim == 1 or axis is None:
+        flat = a.ravel().data
+        return sum(flat) / len(flat)
+    tot = a.sum(axis)
+    n = a.shape[axis]
+    return tot / n
+
+
 def num_summaries():
     def arr(x, *a, **k):
+        if isinstance(x, (list, tuple)) and x and all(isinstance(m, NumArr) and m.ndim == 2 for m in x):
+            return Stack3(list(x), 0)
         out = x.copy() if isinstance(x, NumArr) else NumArr(list(x)) if _is_seq(x) else x
         dt = k.get("dtype", a[0] if a else None)
         if dt is not None and isinstance(out, NumArr):
@@ -416,6 +465,9 @@ def num_summaries():
         "np.full": lambda n, v, *a, **k: NumArr([v] * n) if isinstance(n, int) else (NumArr([v] * n[0]) if len(n) == 1 else NumArr([[v] * n[1] for _ in range(n[0])])),
         "np.empty": lambda shape=None, dtype=None, *a, **k: _alloc(shape, 0, "int" if _dtype_name(dtype) == "int" else None),
         "np.inf": float("inf"), "np.dot": dot, "np.matmul": dot,
+        "np.dstack": lambda seq: Stack3(list(seq), 2),
+        "np.mean": lambda a, axis=None, **k: a.mean(axis) if isinstance(a, Stack3) else (Stack3(list(a), 0).mean(axis) if (isinstance(a, (list, tuple)) and a and isinstance(a[0], NumArr) and a[0].ndim == 2) else _mean(a, axis)),
+        "np.average": lambda a, axis=None, **k: a.mean(axis) if isinstance(a, Stack3) else _mean(a, axis),
         "np.size": lambda a, axis=None: (a.size if axis is None else a.shape[axis]) if isinstance(a, NumArr) else (len(a) if _is_seq(a) else 1),
         "np.shape": lambda a: a.shape if isinstance(a, NumArr) else (len(a),) if _is_seq(a) else (),
         "np.ndim": lambda a: a.ndim if isinstance(a, NumArr) else (1 if _is_seq(a) else 0),
@@ -426,7 +478,7 @@ def num_summaries():
         "np.reshape": lambda a, shape, order="C": (a if isinstance(a, NumArr) else NumArr(a)).reshape(shape, order=order),
         "np.ravel": lambda a, *x, **k: (a if isinstance(a, NumArr) else NumArr(a if _is_seq(a) else [a])).flatten(),
         "np.column_stack": lambda t: NumArr([list(c) for c in t]).T, "np.vstack": lambda t: NumArr([list(r) for r in t]),
-        "np.stack": lambda t, axis=0: NumArr([list(r) for r in t]) if axis == 0 else NumArr([list(c) for c in t]).T,
+        "np.stack": lambda t, axis=0: (Stack3(list(t), axis) if (len(t) and isinstance(t[0], NumArr) and t[0].ndim == 2) else (NumArr([list(r) for r in t]) if axis == 0 else NumArr([list(c) for c in t]).T)),
         "np.transpose": lambda a: (a if isinstance(a, NumArr) else NumArr(a)).T,
         "np.sum": lambda a, axis=None: (a if isinstance(a, NumArr) else NumArr(a)).sum(axis), "np.abs": lambda a: abs(a), "np.absolute": lambda a: abs(a),
         "np.min": lambda a: NumArr(a).min() if _is_seq(a) else a, "np.max": lambda a: NumArr(a).max() if _is_seq(a) else a,
